@@ -357,7 +357,7 @@ def run_check(prop, spec, tier, replay=None):
         import pumlcheck, pumlmachines
         mm, vv = pumlcheck.run(seed, n, stats)
         # whole machines written as PlantUML text against the description they were printed from
-        mm2, vv2 = pumlmachines.run(seed, 6 if tier == "quick" else 36, stats)
+        mm2, vv2 = pumlmachines.run(seed, 9 if tier == "quick" else 36, stats)
         mm += mm2; vv += vv2
     elif spec.get("custom") == "store":
         import storecheck
